@@ -82,10 +82,11 @@ type State struct {
 	locks  map[string]int // held locks (by key) — lock discipline tracking
 	ghost  map[string]Term
 	oldMode int
+	epoch   int
 }
 
 func (s *State) clone() *State {
-	n := &State{pc: s.pc, alloc: s.alloc, oldMode: s.oldMode}
+	n := &State{pc: s.pc, alloc: s.alloc, oldMode: s.oldMode, epoch: s.epoch}
 	n.cells = make(map[*Cell]Value, len(s.cells))
 	for k, v := range s.cells {
 		n.cells[k] = v
@@ -149,9 +150,30 @@ func isVcSeq(t types.Type) (types.Type, bool) {
 	return nil, false
 }
 
+func isVcSet(t types.Type) (types.Type, bool) {
+	n, ok := t.(*types.Named)
+	if !ok {
+		return nil, false
+	}
+	name := n.Obj().Name()
+	if o := n.Origin(); o != nil {
+		name = o.Obj().Name()
+	}
+	if name != "vcSet" {
+		return nil, false
+	}
+	if m, ok := n.Underlying().(*types.Map); ok {
+		return m.Key(), true
+	}
+	return nil, false
+}
+
 func (ti *TypeInfo) sortOf(t types.Type) string {
 	if et, ok := isVcSeq(t); ok {
 		return arraySort(SInt, ti.sortOf(et))
+	}
+	if kt, ok := isVcSet(t); ok {
+		return arraySort(ti.sortOf(kt), SBool)
 	}
 	switch u := t.Underlying().(type) {
 	case *types.Basic:
